@@ -26,6 +26,7 @@ pub fn cells(tier: Tier) -> Vec<CellPlan> {
     add(cells::visibility("C02", Vis::Whitelist, 1), 1, 2, 3, 4, 1.0);
     add(cells::two_clients("C02"), 1, 2, 3, 3, 2.0);
     add(cells::rates("C02"), 1, 2, 3, 4, 1.0);
+    add(cells::same_frame("C02"), 1, 2, 2, 3, 1.0);
     add(cells::split_lossy("C02"), 2, 3, 3, 4, 2.0);
     v
 }
